@@ -1544,6 +1544,8 @@ func main() {
 		nIll = 40000
 	}
 	rn.illHistories(r.Fork(), nIll)
+	// MultiReaders with many parts (wide.go); forked after everything else for the same reason
+	rn.wideCases(r.Fork(), cfg.Thorough())
 	o.Stat("clone_family_histories", nClone)
 	o.Stat("random_histories", nHist)
 	o.Stat("random_histories_api_level", nBare)
